@@ -96,7 +96,7 @@ M("c02-broadcast-before-persist", ["C02", "C09"], S,
         self.broadcast_message(sm)''',
   '''        self.broadcast_message(sm)
         self._add_message(sm)''',
-  ["R02.order", "R09.emit"])
+  ["R02.order", "R09.emit", "R09.last"])
 M("c02-broadcast-first-listener-only", ["C02"], S,
   '''        for (send_f, stop_f) in self._listeners.values():
             send_f(sm)''',
@@ -569,7 +569,7 @@ M("c11-released-names-global", ["C11"], S,
 
 class CrowdedError(Exception):
     pass''',
-  ["R11.inv"], "only flagged when read; see c11-released-names-global-read")
+  ["R11.inv"], "a module-level set of released names consulted by claim (see extra)")
 M("c11-allocation-counter", ["C11", "C04"], S,
   '''    def _find_available_nameplate_id(self):
         claimed = self._get_nameplate_ids()''',
@@ -1047,6 +1047,32 @@ B("c20-backup-name-without-version", ["C20"], D,
 
 # two-site mutants (extra edits applied together with the main one)
 EXTRA = {
+    "c11-released-names-global": [
+        (S, '''        db.execute("UPDATE `nameplate_sides` SET `claimed`=?"
+                   " WHERE `nameplates_id`=? AND `side`=?",
+                   (False, npid, side))''',
+         '''        _released_names.add((self._app_id, name, side))
+        db.execute("UPDATE `nameplate_sides` SET `claimed`=?"
+                   " WHERE `nameplates_id`=? AND `side`=?",
+                   (False, npid, side))'''),
+        (S, '''        assert isinstance(name, type("")), type(name)
+        assert isinstance(side, type("")), type(side)
+        db = self._db
+        row = db.execute("SELECT * FROM `nameplates`"
+                         " WHERE `app_id`=? AND `name`=?",
+                         (self._app_id, name)).fetchone()
+        if not row:
+            if self._log_requests:''',
+         '''        assert isinstance(name, type("")), type(name)
+        assert isinstance(side, type("")), type(side)
+        db = self._db
+        if (self._app_id, name, side) in _released_names:
+            raise ReclaimedError("you cannot re-claim a nameplate that your side previously released")
+        row = db.execute("SELECT * FROM `nameplates`"
+                         " WHERE `app_id`=? AND `name`=?",
+                         (self._app_id, name)).fetchone()
+        if not row:
+            if self._log_requests:''')],
     "c07-reclaim-after-write": [
         (S, '''    def release_nameplate(self, name, side, when):''',
          '''    def _touch_nameplate_mailbox(self, mailbox_id, when):
